@@ -626,6 +626,10 @@ class Ledger(metaclass=LedgerRegistry):
     def maybe_has_channel_key(self, tx):
         for txo in tx._outputs:
             if txo.can_decode_claim and txo.claim.is_channel:
+                try:
+                    txo.claim.channel.public_key_bytes
+                except (ValueError, TypeError, KeyError):
+                    continue  # anyone can publish a channel without a well-formed public key: it is not one of ours
                 for account in self.accounts:
                     account.deterministic_channel_keys.maybe_generate_deterministic_key_for_channel(txo)
 
